@@ -1310,6 +1310,23 @@ class Runner:
                 ok_error = ms.has_error() and not ms.has_sync_token
             if r.status >= 500:
                 self.stats["sync:foreign-5xx"] += 1
+            if not ok_error and ms is not None and ms.has_sync_token:
+                # Tokens are content hashes.  A token taken from another collection names a *state*; if this
+                # collection's repository happens to hold that tree too (e.g. written by a request that was then
+                # refused) the server may answer - but then with the exact difference from that state.
+                snaps = [snap for (c_, i_), h_ in self.sync_tokens.items() for (t_, snap, _s) in h_ if t_ == token]
+                cur_ = {n: self.cur_etag.get((coll, n)) for n in mc.members}
+                for snap in snaps:
+                    replica = dict(snap)
+                    for resp in ms.responses:
+                        n = name_from_href(resp.href)
+                        if resp.status == 404:
+                            replica.pop(n, None)
+                        else:
+                            replica[n] = resp.prop_text(P_ETAG) if with_etag else cur_.get(n)
+                    if replica == cur_:
+                        self.stats["sync:foreign-token-names-equal-content-state"] += 1
+                        return
             if not ok_error:
                 self.violation("sync", "foreign-token-accepted", f"sync-collection on {coll} with never-issued token {token!r} ({spec}) answered {r.status} {r.body[:300]!r}")
             self.sync_nontrivial = getattr(self, "sync_nontrivial", set())
